@@ -196,7 +196,8 @@ pub fn explore(def: &CheckDef, tier: Tier, base_seed: u64, known: &[String]) -> 
     loop {
         let time_left = t0.elapsed() < budget;
         // stop launching once a few violations are in hand (shrinking needs the time)
-        let launch = time_left && next < max_runs && agg.unknown_violating < 3;
+        let sweep = std::env::var("MEMSIM_SWEEP").is_ok();
+        let launch = time_left && next < max_runs && (sweep || agg.unknown_violating < 3);
         while launch && children.len() < jobs && next < max_runs {
             let seed = base_seed.wrapping_add(next);
             let path = format!("{dir}/r{seed}.json");
